@@ -23,6 +23,11 @@ def run(ctx):
     import prost_map
     prost_map.skip_default(rep, 'R05.c', ctx)
     pr.wrappers(rep, 'R05.w', prog, cg)
+    # no decoder guard is stricter than the operation needs (a value / unknown field ending exactly at the end of the input is complete)
+    import audit
+    import scopes
+    seen_ = cg.reachable(scopes.prost_decoder_roots(prog))
+    audit.tight_guards(rep, 'R05.t', sorted([b for b, _ in seen_.values() if b.crate == 'pilota'], key=lambda b: b.id))
     rep.floor('R05.a', 50)
     rep.floor('R05.b', 26)
     import gen_proto
